@@ -19,6 +19,9 @@ thread_local! {
 }
 
 pub static INJECTED: AtomicU64 = AtomicU64::new(0);
+/// Sequential workloads: the main thread is inside a crate call (for the watchdog).
+pub static SEQ_INCALL: AtomicBool = AtomicBool::new(false);
+pub static MAIN_TID: std::sync::atomic::AtomicI64 = std::sync::atomic::AtomicI64::new(0);
 pub static CRATE_PANICS: AtomicU64 = AtomicU64::new(0);
 pub static HARNESS_PANICS: AtomicU64 = AtomicU64::new(0);
 
@@ -84,6 +87,9 @@ pub fn init(workload: &str, params: Value, out: &str) {
         r.out = out.to_string();
         r.t0 = crate::util::now_s();
     });
+    if !cfg!(miri) {
+        MAIN_TID.store(unsafe { libc::syscall(libc::SYS_gettid) } as i64, Relaxed);
+    }
     install_panic_hook();
 }
 
@@ -342,6 +348,26 @@ fn diagnose_stall() -> ! {
         } else {
             detail = format!("no token holder (cur={:#x})", holder);
         }
+    } else if SEQ_INCALL.load(Relaxed) {
+        // sequential workload: the main thread is inside a crate call and nothing moves
+        let tid = MAIN_TID.load(Relaxed);
+        let mut states = Vec::new();
+        let mut cpu = Vec::new();
+        for _ in 0..4 {
+            if let Some((st, t)) = task_stat(tid) {
+                states.push(st);
+                cpu.push(t);
+            }
+            std::thread::sleep(std::time::Duration::from_millis(500));
+        }
+        detail = format!("sequential workload: main thread (os tid {}) inside a crate call, states={:?} cpu_ticks={:?}", tid, states, cpu);
+        if states.len() == 4 {
+            if states.iter().all(|s| *s == 'S' || *s == 'D') {
+                verdict = "blocked".into();
+            } else if states.iter().all(|s| *s == 'R') && cpu[3] > cpu[0] + 100 {
+                verdict = "spinning".into();
+            }
+        }
     } else {
         detail = "FREE mode: no operation completed".into();
     }
@@ -349,6 +375,7 @@ fn diagnose_stall() -> ! {
     if verdict == "blocked" || verdict == "spinning" {
         let prop = match sched::BUDGET_PROP.load(Relaxed) {
             8 => "C08",
+            13 => "C13",
             _ => "C09",
         };
         violation(prop, &format!("stall-{}", verdict), detail.clone(), &cur);
